@@ -132,6 +132,9 @@ func checkLine(c Case) error {
 		if merr != nil {
 			return fmt.Errorf("MarshalText of the record parsed from %s failed: %v", vp.Q(line), merr)
 		}
+		if kerr := vp.KeepBytes("Record.MarshalText", text); kerr != nil {
+			return kerr
+		}
 		back := &hostsfile.Record{}
 		if uerr := back.UnmarshalText(text); uerr != nil {
 			return fmt.Errorf("MarshalText of the record parsed from %s gives %s, which does not re-parse: %v", vp.Q(line), vp.Q(string(text)), uerr)
